@@ -156,6 +156,13 @@ def probes(method, seed=0, n_random=60):
                 return b
         return None
 
+    for x in (59999, 60000, 60001, 399999999, 400000000, 499999999, 500000000, 395999999, 396000000, 499999998):
+        a = f"{x:010d}"
+        add(a)
+        v = valid_variant(a)
+        if v:
+            add(v)
+    n_boundary = len(out)
     bases = ["0012345678", "1000000000", "0000000000", "9876543210", "0400000007", "5012345600", "0090013000", "0099913003"]
     for b in bases:
         add(b)
@@ -176,12 +183,6 @@ def probes(method, seed=0, n_random=60):
             a = d0 + d1 + "23456789"
             v = valid_variant(a)
             add(v or a)
-    for x in (59999, 60000, 60001, 399999999, 400000000, 499999999, 500000000, 395999999, 396000000, 499999998):
-        a = f"{x:010d}"
-        add(a)
-        v = valid_variant(a)
-        if v:
-            add(v)
     for _ in range(n_random):
         a = "".join(rnd.choice("0123456789") for _ in range(10))
         if rnd.random() < 0.5:
@@ -191,4 +192,5 @@ def probes(method, seed=0, n_random=60):
         v = valid_variant(a)
         if v:
             add(v)
-    return sorted(out.items())
+    items = list(out.items())
+    return items[:n_boundary], items[n_boundary:]
